@@ -271,6 +271,24 @@ def many_layer_directed_def(rng, lo=66, hi=135):
     return GDef("perm", gens, central, tag="many-layer-directed")
 
 
+def full_word_def(rng):
+    """States that fill the 64-bit word exactly (n * w = 64) and whose orbit contains the extreme codes: all bits set
+    but the top one (int64 max), only the top bit (int64 min), all bits set (-1).  Cyclic shifts (+ a swap): orbit <= a
+    few hundred states."""
+    w = rng.choice([1, 1, 2, 4, 8])
+    n = 64 // w
+    top = 2**w - 1
+    kind = rng.choice(["max-but-top", "only-top", "all-but-one-zero", "two-special"])
+    central = [top] * n if kind != "only-top" else [0] * n
+    central[rng.randrange(n)] = {"max-but-top": top >> 1, "only-top": 1 << (w - 1), "all-but-one-zero": 0, "two-special": top >> 1}[kind]
+    if kind == "two-special" and w > 1:
+        central[rng.randrange(n)] = 1
+    gens = [[(i + 1) % n for i in range(n)], [(i - 1) % n for i in range(n)]]
+    if rng.random() < 0.5:
+        gens.append([1, 0] + list(range(2, n)))
+    return GDef("perm", gens, central, tag="full-word-" + kind), w
+
+
 def duplicate_neighbour_def(rng):
     """Graphs in which a state has the SAME neighbour under several generators (coset graphs where many generators
     fix a state, or a generator listed twice at low indices) and layers of a few dozen states."""
@@ -302,7 +320,7 @@ def gen_perm_def(rng, cap_n=9):
     """Mostly valid permutation definitions with small orbits."""
     r = rng.random()
     if r < 0.06:
-        return deep_directed_def(rng)
+        return deep_directed_def(rng) if rng.random() < 0.7 else full_word_def(rng)[0]
     if r < 0.12:
         return duplicate_neighbour_def(rng)
     if r < 0.25:
